@@ -94,7 +94,7 @@ func init() {
 		Floors: []Floor{{"C01.R1@single|*:cb:Prep", 1, "prep invoke on the single-node path"}, {"C01.R2@single|*:cb:Exec", 1, "exec invoke on the single-node path"},
 			{"C01.R3@single|*:cb:Post", 1, "post invoke on the single-node path"}, {"C01.R5@single|*:return", 1, "returns of the single-node path"}, {"C01.R4@single|*:return", 1, "post not skipped after a successful exec phase"},
 			{"C01.R2@batch|*:cb:Exec", 1, "per-item exec"}, {"C01.R3@batch|*:cb:Post", 1, "batch post"},
-			{"C01.R6@*:delegation", 10, "library phase methods forward positionally"}, {"C01.R7@*:implements-*", 18, "method-set table"}, {"C01.R7@*-resolution", 30, "promoted method resolution"}},
+			{"C01.R6@*:delegation", 10, "library phase methods forward positionally"}, {"C01.R6@*:used", 6, "configured functions are used"}, {"C01.R6@*:calls-once", 8, "phase methods call their function once"}, {"C01.R7@*:implements-*", 18, "method-set table"}, {"C01.R7@*-resolution", 30, "promoted method resolution"}},
 		Assumptions: commonAssumptions})
 	reg(&Prop{ID: "C02", Units: []string{"run", "loops", "adapters", "config"}, Technique: "static analysis: scalar-evolution trip-count analysis + path-sensitive retry typestate over go/ssa",
 		Explanation: lifeExpl + " C02 decides: (R1, static arithmetic) every loop that directly contains an exec attempt has a unit-step attempt counter whose exit test, evaluated after attempt j, is equivalent to j < V for one symbolic V, and (R1, path-sensitive half) V is the node's GetMaxRetries() value, or the constant 1 for a node known not to expose retry settings; (R2) exactly one attempt per iteration; (R3) a further attempt only after a known-failed one, and a run fails with an exec error only after the budget test exhausted; (R4) the fallback is invoked at most once, only after exhaustion with the last attempt known failed, on the node being run, with (prep value, that last error), and is not skipped when the node may implement it. Same rules on the single-node path and on the per-item path. (R6) every form of the budget setter (option, NodeBuilder, BatchNodeBuilder) stores its argument unconditionally and unchanged in the field GetMaxRetries returns.",
@@ -109,16 +109,16 @@ func init() {
 		Assumptions: append(append([]string{}, commonAssumptions...), "elapsed time >= w is the contract of time.After/time.NewTimer; promptness after cancellation is the contract of select")})
 	batchExpl := lifeExpl + " On the batch paths the result list is abstracted per loop: for every loop that stores Result values through an index, the monitor records the indexed slice, the offset of the index from the loop's induction variable, whether every completed iteration stored its slot, how the loop was left (induction-variable test against the slice length, or early), and the provenance class of every stored value."
 	reg(&Prop{ID: "C06", Units: []string{"run", "adapters"}, Technique: "static analysis: path-sensitive slot-coverage/provenance abstract interpretation over go/ssa (batch paths, task closure inlined)",
-		Explanation: batchExpl + " C06 decides: post is invoked once, after pool.Wait() has followed the last Submit; it receives the item list and a result list made with len(items); the item list is prep's []Result itself or an index-preserving copy of prep's list; every result store writes slot IV+c of the current iteration with a value derived from the exec phase of the item loaded from items[IV+c] in the same iteration/task (or an error); one submit / one exec chain per iteration; no append to the result list. (R8) the exec method of function-style nodes invokes the configured exec function exactly once on every path (an item is never passed over because of what it carries).",
+		Explanation: batchExpl + " C06 decides: post is invoked once, after pool.Wait() has followed the last Submit; it receives the item list and a result list made with len(items); the item list is prep's []Result itself or an index-preserving copy of prep's list; every result store writes slot IV+c of the current iteration with a value derived from the exec phase of the item loaded from items[IV+c] in the same iteration/task (or an error); one submit / one exec chain per iteration; no append to the result list. (R8) the exec method of function-style nodes invokes the configured exec function exactly once on every path (an item is never passed over because of what it carries). (R9) every slice index on the batch paths is provably within the length of the indexed slice (a conversion or result list that is too short would panic instead of settling every item); post is handed empty lists only on paths where the list prep produced is known to be empty.",
 		CaseRule:    "an obligation instance is one (abstract path, site) pair; distinct = distinct rule@construct keys",
 		Floors: []Floor{{"C06.R1@batch|*:post", 1, "length agreement"}, {"C06.R2@batch|*:post", 1, "slot coverage and provenance at post"}, {"C06.R2@batch|*:item-exec", 1, "exec argument is items[i]"}, {"C06.R4@batch|*:post", 1, "wait before post"},
-			{"C06.R4@batch|*:pool-close", 1, "close after wait"}, {"C06.R6@batch|*:post", 1, "post arguments"}, {"C06.R7@batch|*:items", 1, "item list provenance"}, {"C06.R5@batch|*:post", 1, "one chain/submit per iteration"}, {"C06.R8@*.Exec:calls-once", 2, "function-style exec runs the user's function for every item"}},
+			{"C06.R4@batch|*:pool-close", 1, "close after wait"}, {"C06.R6@batch|*:post", 1, "post arguments"}, {"C06.R7@batch|*:items", 1, "item list provenance"}, {"C06.R5@batch|*:post", 1, "one chain/submit per iteration"}, {"C06.R9@batch|*:index-in-bounds", 4, "every slice index on the batch paths is provably in bounds"}, {"C06.R1@batch|*:post-empty", 1, "empty lists only for an empty prep list"}, {"C06.R8@*.Exec:calls-once", 2, "function-style exec runs the user's function for every item"}},
 		Assumptions: append(append([]string{}, commonAssumptions...), "concurrent writes to distinct slots do not race (Go memory model) and are visible after WaitGroup.Wait (C12 decides the pool's barrier)")})
 	reg(&Prop{ID: "C07", Units: []string{"run", "loops", "config", "adapters"}, Technique: "static analysis: path-sensitive per-item typestate + effect analysis over go/ssa",
-		Explanation: batchExpl + " C07 decides: in continue mode the item loop is left only through its index test against the list length (no break/return), every iteration/task runs exactly one exec chain unless it observed cancellation, the per-item chain obeys the retry/fallback rules of C02 (re-checked on the per-item function), the per-item path writes no memory shared between items other than its own result slot and boolean constants to the mutex-guarded stop flag, and the slot on failure holds the last attempt's (or the fallback's) error. (R6) the error-handling setters write exactly the mode field, with the constant chosen by their argument. (R7) the exec method of function-style nodes invokes the configured exec function exactly once on every path, whatever the item carries (an error item is still processed, retried and handed to the fallback).",
+		Explanation: batchExpl + " C07 decides: in continue mode the item loop is left only through its index test against the list length (no break/return), every iteration/task runs exactly one exec chain unless it observed cancellation, the per-item chain obeys the retry/fallback rules of C02 (re-checked on the per-item function), the per-item path writes no memory shared between items other than its own result slot and boolean constants to the mutex-guarded stop flag, and the slot on failure holds the last attempt's (or the fallback's) error. (R6) the error-handling setters write exactly the mode field, with the constant chosen by their argument. (R7) the exec method of function-style nodes invokes the configured exec function exactly once on every path, whatever the item carries (an error item is still processed, retried and handed to the fallback). (R8) every slice index on the batch paths is provably in bounds; (R2) post is told there are no items only when prep's list is known to be empty.",
 		CaseRule:    "an obligation instance is one (abstract path, site) pair; distinct = distinct rule@construct keys",
 		Floors: []Floor{{"C07.R1@batch|*:post", 1, "no early exit in continue mode"}, {"C07.R2@batch|*:post", 1, "one chain per item"}, {"C07.R3@batch|*:cb:Exec", 1, "per-item retry rules"}, {"C07.R3@batch|*:cb:ExecFallback", 1, "per-item fallback rules"},
-			{"C07.R3@batch|*:budget-test", 1, "per-item budget provenance"}, {"C07.R4@batch|*:shared-write", 1, "effect set of the per-item path"}, {"C07.R5@batch|*:post", 1, "slot value provenance"}, {"C07.R6@*WithBatchErrorHandling:single-field", 3, "the mode setters write the mode"}, {"C07.R7@*.Exec:calls-once", 2, "function-style exec runs the user's function for every item"}},
+			{"C07.R3@batch|*:budget-test", 1, "per-item budget provenance"}, {"C07.R4@batch|*:shared-write", 1, "effect set of the per-item path"}, {"C07.R5@batch|*:post", 1, "slot value provenance"}, {"C07.R6@*WithBatchErrorHandling:single-field", 3, "the mode setters write the mode"}, {"C07.R8@batch|*:index-in-bounds", 4, "no index panic on the batch paths"}, {"C07.R7@*.Exec:calls-once", 2, "function-style exec runs the user's function for every item"}},
 		Assumptions: commonAssumptions})
 	reg(&Prop{ID: "C09", Units: []string{"run", "config", "pool"}, Technique: "static analysis: path-sensitive slot-coverage + lock-held typestate over go/ssa",
 		Explanation: batchExpl + " C09 decides: (R1) sequential stop mode: no item exec starts after an error outcome was stored; (R2) concurrent stop mode: each task reads the shared stop flag while holding the mutex and executes its item only when it read false, a failing task stores true while holding the mutex, the mutex is released on every task path; (R3) slot coverage: at post every slot of the result list was assigned on every path - the item loop ran to the end of the list, or the current slot was stored and a loop ran over results[i+1:] to its end storing an error result in every slot; (R4) every stored value is the item's own outcome or an error, never a success value for an item that did not run. (R5) the error-handling setters write exactly the mode field, with the constant chosen by their argument. (R6) Submit puts the task on the queue by one blocking send in the caller's goroutine before it returns (no select alternative, no goroutine), so with one worker items start in item order and nothing positioned after the first failure runs before it.",
@@ -187,11 +187,11 @@ func init() {
 		Floors: []Floor{{"C17.R1@prep->exec", 1, "prep value reaches exec"}, {"C17.R1@prep->post", 1, "prep value reaches post"}, {"C17.R1@exec->post", 1, "exec value and error result reach post"}, {"C17.R2@exec->post", 1, "error state preserved"}, {"C17.R2@CustomNode.Exec:producer", 1, "exec distinguishes error results"}, {"C17.R1@fallback->post", 1, "fallback value reaches post"},
 			{"C17.R1@item->exec", 1, "batch items unwrapped"}, {"C17.R1@batch|*:post", 1, "batch result slots: exec outcomes wrapped only when they are not Results"}, {"C17.R3@*:wrapper", 7, "seven Any-style wrappers"}, {"C17.R5@*:transparent", 6, "builder phase methods return the embedded node's results unchanged"}},
 		Assumptions: append(append([]string{}, commonAssumptions...), "A5: user payloads are not themselves flyt.Result values except where the framework produces them (batch items, error results)")})
-	reg(&Prop{ID: "C19", Units: []string{"config", "pool", "run"}, Technique: "static analysis: setter effect summaries compared across construction forms + constructor option-dispatch/apply-loop typestate + default/getter summaries",
-		Explanation: "Every setting has one effect summary (field written := function of the argument, per path condition on the argument), extracted by exploring the option's setter closure and the NodeBuilder / BatchNodeBuilder methods of the same name; forms with the same parameter type must have equal summaries, each path writes exactly one field, builder methods return their receiver. The constructors NewBaseNode / NewNode / NewBatchNode are explored with a monitor for the classification loop (each argument visited in ascending order and collected once under its established type) and the application loops (each collected list applied element by element, once, in ascending order, every collected list applied); the option kinds NewNode and NewBatchNode accept must coincide; base options and function options write disjoint fields. Defaults: a node built from no options has (1 attempt, 0 wait, concurrency 0, mode unset, no functions); getters return their field, the unset mode reads as continue; the mode setters store exactly the strings continue/stop; a pool size <= 0 becomes 1 (C08.R1); behaviour reads the configuration through the getters of the node being run (C02.R1, C08.R4/R6).",
+	reg(&Prop{ID: "C19", Units: []string{"config", "pool", "run", "adapters"}, Technique: "static analysis: setter effect summaries compared across construction forms + constructor option-dispatch/apply-loop typestate + default/getter summaries",
+		Explanation: "Every setting has one effect summary (field written := function of the argument, per path condition on the argument), extracted by exploring the option's setter closure and the NodeBuilder / BatchNodeBuilder methods of the same name; forms with the same parameter type must have equal summaries, each path writes exactly one field, builder methods return their receiver. The constructors NewBaseNode / NewNode / NewBatchNode are explored with a monitor for the classification loop (each argument visited in ascending order and collected once under its established type) and the application loops (each collected list applied element by element, once, in ascending order, every collected list applied); the option kinds NewNode and NewBatchNode accept must coincide; base options and function options write disjoint fields. Defaults: a node built from no options has (1 attempt, 0 wait, concurrency 0, mode unset, no functions); getters return their field, the unset mode reads as continue; the mode setters store exactly the strings continue/stop; a pool size <= 0 becomes 1 (C08.R1); behaviour reads the configuration through the getters of the node being run (C02.R1, C08.R4/R6). (R8) every function-typed field of CustomNode / BatchNode is called by a phase method of that type, and on every path where it is known to be set it is the one that is called, exactly once.",
 		CaseRule:    "an obligation instance is one setter form, one pair of forms, one constructor path or one getter path; distinct = distinct rule@construct keys",
 		Floors: []Floor{{"C19.R1@With*:*", 10, "pairs of equivalent setter forms"}, {"C19.R2@*:single-field", 25, "single-field setters"}, {"C19.R3@*:application", 3, "constructor application loops"}, {"C19.R4@*", 1, "accepted option kinds agree"},
-			{"C19.R5@*:defaults", 3, "defaults of the three constructors"}, {"C19.R5@BaseNode.*:identity", 3, "getters"}, {"C19.R6@*:mode-constants", 3, "mode constants in setters"}, {"C19.R6@*:default-mode", 1, "default mode"}, {"C19.R5@NewWorkerPool:spawn-bound", 1, "pool size <= 0 means one worker"}, {"C19.R5@NewWorkerPool:make-chan", 1, "constructor does not panic for non-positive sizes"}, {"C19.R7@*", 3, "behaviour reads the getters of the node being run"}},
+			{"C19.R5@*:defaults", 3, "defaults of the three constructors"}, {"C19.R5@BaseNode.*:identity", 3, "getters"}, {"C19.R6@*:mode-constants", 3, "mode constants in setters"}, {"C19.R6@*:default-mode", 1, "default mode"}, {"C19.R5@NewWorkerPool:spawn-bound", 1, "pool size <= 0 means one worker"}, {"C19.R5@NewWorkerPool:make-chan", 1, "constructor does not panic for non-positive sizes"}, {"C19.R7@*", 3, "behaviour reads the getters of the node being run"}, {"C19.R8@*:used", 6, "every configurable function field is called by a phase method"}},
 		Assumptions: commonAssumptions})
 	reg(&Prop{ID: "C04", Units: []string{"run", "flow", "adapters"}, Technique: "static analysis: path-sensitive error-provenance (wrap-chain) abstract interpretation over go/ssa",
 		Explanation: lifeExpl + " C04 decides on Run (single and batch paths): nil error iff the path ended in a successful post; every error return that follows a failing callback wraps (fmt.Errorf %w / errors.Join / identity) that callback's own error term, and no further phase callback is invoked after it.",
